@@ -1,13 +1,37 @@
 """C01: pyrtl.Simulation vs the Coq model of Simulation (tie) and vs the
-reference semantics Sem.v (search), every wire on every cycle + final memory."""
+reference semantics Sem.v (search), every wire on every cycle + final memory.
+
+Tie: T -- Gen/SimOps.v (simple_func) and Gen/SimExec.v (_sanitize / WireVector.bitmask, the 'c' and 's'
+loops and the 'm' lookup of _execute, _mem_update, the register capture; shape of _execute's dispatch, order
+of the phases of step, the three net lists of _initialize) are regenerated from the current source by
+py/gen_coq.py + py/genfrag_C01.py on every run and Sim/SimModel.v is built from them; B -- the remaining
+plumbing of the model is compared with the implementation on every case below.
+
+Two streams of cases, both compared with the model (tie) and with Sem.v (search):
+  random  seeded random API-built designs (gen_designs);
+  sweep   one fixed micro design per operand width (quick: 1..40, the 64/128 boundaries and 16 seeded others up to 136;
+          thorough: every width 1..136) exercising every regenerated fragment at that
+          width (concat in both orders, reversed / repeated / msb select, masked ~ - + *, register capture,
+          enabled memory write and read back), so that a change of one fragment at ONE width -- which the
+          proof reports but random designs can miss -- is turned into a concrete failing input."""
 import pyrtl
 import gen_designs
 import nlx
 
 RULE = ('random API-built designs (all 16 primitive ops, widths 1..130, registers with/without '
-        'reset, multi-port memories, ROMs) x initial states x input sequences; every wire on every '
+        'reset, multi-port memories, ROMs) x initial states x input sequences, plus one micro design per '
+        'operand width (quick: 1..40, 63-65, 127-130 and 16 seeded others <= 136; thorough: all 1..136) exercising concat/select/mask/register/memory at that width; every wire on every '
         'cycle compared; a case is distinct by (design,stimulus) hash and non-trivial when at least '
         'half of its non-constant wires took two or more values during the run')
+SWEEP_MAX = 136
+SWEEP_ALWAYS = list(range(1, 41)) + [63, 64, 65, 127, 128, 129, 130]   # quick tier: these + 16 seeded others
+
+
+def sweep_widths(ctx):
+    if ctx.tier != 'quick':
+        return list(range(1, SWEEP_MAX + 1))
+    rest = [w for w in range(1, SWEEP_MAX + 1) if w not in SWEEP_ALWAYS]
+    return sorted(SWEEP_ALWAYS + ctx.sub_rng('sweep-widths').sample(rest, 16))
 IMPORTS_SPEC = 'From PyRTL Require Import Netlist.Sem Netlist.WFDefs Netlist.SpecHarness.'
 IMPORTS_MODEL = 'From PyRTL Require Import Sim.SimModel Sim.Harness.'
 COQ_TARGETS = ['theories/Netlist/SpecHarness.vo', 'theories/Sim/Harness.vo']
@@ -34,6 +58,56 @@ def driver_op(block, wname):
     return '?'
 
 
+def sweep_design(w):
+    """fixed micro design, built through the public API, with every operand-width dependent fragment of
+    Simulation at width w"""
+    pyrtl.reset_working_block()
+    block = pyrtl.working_block()
+    d = gen_designs.Design(block)
+    a, b, en = pyrtl.Input(w, 'a'), pyrtl.Input(3, 'b'), pyrtl.Input(1, 'en')
+    d.inputs = [a, b, en]
+
+    def out(x, name, width=None):
+        o = pyrtl.Output(len(x) if width is None else width, name)
+        o <<= x
+        d.outputs.append(o)
+    out(pyrtl.concat(b, a), 'c_ba')
+    out(pyrtl.concat(a, b, a), 'c_aba')
+    out(a[::-1], 's_rev')
+    out(a[w - 1], 's_msb')
+    out(pyrtl.concat_list([a[w - 1], a[0], a[w // 2], a[0]]), 's_pick')
+    out(~a, 'not_a')
+    out(a.nand(b), 'nand_ab')
+    out(a - b, 'sub_ab')
+    out(a - b, 'sub_trunc', width=w)
+    out(a + a, 'add_trunc', width=w)
+    out(a * b, 'mul_ab')
+    out(pyrtl.select(en, a, ~a), 'mux')
+    r = pyrtl.Register(w, 'r')
+    r.next <<= (r ^ a) + 1
+    d.regs = [r]
+    out(r, 'r_out')
+    mem = pyrtl.MemBlock(bitwidth=w, addrwidth=2, name='m', asynchronous=True)
+    mem[b[0:2]] <<= pyrtl.MemBlock.EnabledWrite(a, en)
+    out(mem[b[1:3]], 'rd')
+    d.mems = [mem]
+    d.ops = [n.op for n in block.logic]
+    return d
+
+
+def sweep_case(ctx, w):
+    rng = ctx.sub_rng('sweep', w)
+    d = sweep_design(w)
+    top = (1 << w) - 1
+    avals = [top, rng.getrandbits(w), (top // 3) | (1 << (w - 1)), 0, rng.getrandbits(w) | 1, top >> 1]
+    if ctx.tier == 'quick':
+        avals = avals[:3]
+    inputs = [{'a': av, 'b': rng.getrandbits(3), 'en': (1, 0, 1, 1, 0, 1)[t]} for t, av in enumerate(avals)]
+    regmap = {d.regs[0]: rng.getrandbits(w)} if w % 2 else {}
+    memmap = {d.mems[0]: {1: top}} if w % 3 == 0 else {}
+    return d, regmap, memmap, inputs, (1 if w % 5 == 0 else 0)
+
+
 def build_case(ctx, i, wide_prob):
     rng = ctx.sub_rng('design', i)
     d = gen_designs.make_design(rng, wide_prob=wide_prob)
@@ -47,9 +121,17 @@ def run(ctx):
     n = 150 if ctx.tier == 'quick' else 2500
     cases = []
     exprs = []
-    for i in range(n):
-        wide = 0.1 if i % 3 else 0.4
-        d, regmap, memmap, inputs, dflt = build_case(ctx, i, wide)
+    todo = [('sweep', w) for w in sweep_widths(ctx)] + [('random', i) for i in range(n)]
+    ctx.sub_rng('order').shuffle(todo)      # spreads the wide (slow to evaluate) cases over the shards
+    for stream, i in todo:
+        if stream == 'sweep':
+            d, regmap, memmap, inputs, dflt = sweep_case(ctx, i)
+            ctx.count('stream', 'sweep')
+            i = 'w%d' % i
+        else:
+            wide = 0.1 if i % 3 else 0.4
+            d, regmap, memmap, inputs, dflt = build_case(ctx, i, wide)
+            ctx.count('stream', 'random')
         try:
             sim, tracer = simulate(d, regmap, memmap, inputs, dflt)
         except pyrtl.PyrtlError as e:
@@ -62,12 +144,16 @@ def run(ctx):
             dump.coq(), dflt, dump.regmap(regmap), dump.memmap(memmap), dump.inputs(inputs),
             nlx.pairs(probes))
         names = dump.names()
+        # position of each wire's driver in the simulator's order: the first difference reported is the
+        # earliest one in dependency order, so the signature names the op that computed a wrong value
+        rank = {nn.dests[0].name: k for k, nn in enumerate(sim.ordered_nets) if nn.dests}
+        by_dep = sorted(range(len(names)), key=lambda k: rank.get(names[k], -1))
         impl_trace = [[tracer.trace[nm][t] for nm in names] for t in range(len(inputs))]
         impl_mem = [sim.memvalue[mid].get(a, dflt) for (mid, a) in probes]
         varying = sum(1 for k, nm in enumerate(names)
                       if len({row[k] for row in impl_trace}) > 1)
         nonconst = sum(1 for w in dump.wires if not isinstance(w, pyrtl.Const))
-        cases.append(dict(i=i, names=names, impl_trace=impl_trace, impl_mem=impl_mem, ncyc=len(inputs),
+        cases.append(dict(i=i, names=names, by_dep=by_dep, impl_trace=impl_trace, impl_mem=impl_mem, ncyc=len(inputs),
                           nontrivial=(2 * varying >= nonconst), block=d.block, ops=list(d.ops),
                           widths=[w.bitwidth for w in dump.wires], inputs=inputs,
                           regmap={r.name: v for r, v in regmap.items()},
@@ -81,15 +167,20 @@ def run(ctx):
         ctx.count('registers', len(d.regs))
         ctx.count('memories', len(d.mems) + len(d.roms))
         ctx.count('cycles', len(inputs))
-    shard = 25 if ctx.tier == 'quick' else 60
-    spec_results = ctx.coq_eval(['spec_case ' + e for e in exprs], IMPORTS_SPEC, tag='c01spec',
-                                shard=shard, jobs=12)
-    try:
-        model_results = ctx.coq_eval(['simmodel_case ' + e for e in exprs], IMPORTS_MODEL,
-                                     tag='c01model', shard=shard, jobs=12)
-    except Exception as e:  # the model no longer builds (e.g. a generated table changed shape)
-        model_results = None
-        ctx.model_mismatch('Sim/SimModel.v could not be evaluated: %s' % str(e)[-600:], {})
+    shard = 10 if ctx.tier == 'quick' else 40
+    # the oracle and the model are evaluated side by side (independent coqc processes)
+    import concurrent.futures
+    with concurrent.futures.ThreadPoolExecutor(max_workers=2) as ex:
+        f_spec = ex.submit(ctx.coq_eval, ['spec_case ' + e for e in exprs], IMPORTS_SPEC,
+                           tag='c01spec', shard=shard, jobs=7)
+        f_model = ex.submit(ctx.coq_eval, ['simmodel_case ' + e for e in exprs], IMPORTS_MODEL,
+                            tag='c01model', shard=shard, jobs=7)
+        spec_results = f_spec.result()
+        try:
+            model_results = f_model.result()
+        except Exception as e:  # the model no longer builds (e.g. a generated fragment changed shape)
+            model_results = None
+            ctx.model_mismatch('Sim/SimModel.v could not be evaluated: %s' % str(e)[-600:], {})
     for ci, (c, res) in enumerate(zip(cases, spec_results)):
         wf = res[0][0]
         mem_spec = res[1]
@@ -100,7 +191,7 @@ def run(ctx):
             mem_model, model_trace = c['impl_mem'], c['impl_trace']
         key = (c['i'], tuple(map(tuple, c['impl_trace'])))
         sample = None
-        if c['i'] < 2:
+        if c['i'] in (0, 1, 'w37'):
             sample = {'design': c['i'], 'nets': [str(nn) for nn in list(c['block'].logic)[:8]],
                       'inputs': c['inputs'][:2], 'trace_row0': dict(zip(c['names'][:8], c['impl_trace'][0][:8]))}
         ctx.case(key, nontrivial=c['nontrivial'], sample=sample)
@@ -112,7 +203,8 @@ def run(ctx):
         # search: implementation vs reference semantics
         bad = None
         for t in range(c['ncyc']):
-            for k, nm in enumerate(c['names']):
+            for k in c['by_dep']:
+                nm = c['names'][k]
                 if c['impl_trace'][t][k] != spec_trace[t][k]:
                     bad = (t, nm, spec_trace[t][k], c['impl_trace'][t][k])
                     break
@@ -132,7 +224,7 @@ def run(ctx):
                                    op, bad[0], bad[1], bad[2], bad[3]), rep2)
         # tie: implementation vs model of Simulation
         if c['impl_trace'] != model_trace or c['impl_mem'] != mem_model:
-            ctx.model_mismatch('pyrtl.Simulation and Sim/SimModel.v disagree on design %d' % c['i'], rep)
+            ctx.model_mismatch('pyrtl.Simulation and Sim/SimModel.v disagree on design %s' % c['i'], rep)
 
 
 def replay(ctx, data):
